@@ -196,6 +196,13 @@ def agg_statements():
                     for limit in (None, 1):
                         stmt = select([(col('k'), None), (s, 's'), (c, 'c')], from_='t', group_by=A.GroupBy([col('k')], None), order_by=ob, limit=limit)
                         out.append((f'agg-{form}|{n}|{"".join("D" if d == DESC else "A" for d in dirs)}||{"limit" if limit else ""}', stmt))
+    # DISTINCT over a grouped query whose grouping key is NOT selected: different groups may give equal visible rows
+    gb = A.GroupBy([col('k')], None)
+    for tname, targets in (('c', [(c, 'c')]), ('s', [(s, 's')]), ('sc', [(s, 's'), (c, 'c')]), ('kc', [(col('k'), None), (c, 'c')])):
+        for limit in (None, 1, 2):
+            for ob, otag in ((None, '0|'), ([A.OrderBy(1, DESC)], '1|D')):
+                out.append((f'agg-distinct-{tname}|{otag}|distinct|{"limit" if limit else ""}#{limit}',
+                            select(targets, from_='t', group_by=gb, order_by=ob, limit=limit, distinct=True)))
     return out
 
 
